@@ -328,6 +328,14 @@ def run(prog, check):
                     keyexpr = m.func.value.slice if m.func.attr == 'append' else m.args[0]
                     val = m.args[-1]
                     tv_ = target_names(loop.target)
+                    # temporaries of the loop body bound once (copies left by an inlined helper) are read through
+                    cnt_ = {}
+                    for x_ in ast.walk(loop):
+                        if isinstance(x_, ast.Name) and isinstance(x_.ctx, ast.Store):
+                            cnt_[x_.id] = cnt_.get(x_.id, 0) + 1
+                    local_ = {a_.targets[0].id: a_.value for a_ in loop.body if isinstance(a_, ast.Assign) and len(a_.targets) == 1 and
+                              isinstance(a_.targets[0], ast.Name) and cnt_.get(a_.targets[0].id) == 1 and a_.targets[0].id not in tv_}
+                    keyexpr, val = resolve_expr(keyexpr, local_), resolve_expr(val, local_)
                     okk = isinstance(keyexpr, ast.Name) and keyexpr.id == tv_[0]
                     okv = (isinstance(val, ast.Subscript) and isinstance(val.slice, ast.Name) and val.slice.id == tv_[0]) or \
                         (isinstance(val, ast.Name) and len(tv_) > 1 and val.id == tv_[1])
